@@ -170,6 +170,10 @@ pub fn run(out: &mut Out, rng: &mut Rng, thorough: bool) {
             ("lattice", 3, true, 27),
             ("lattice", 3, false, 27),
             ("lattice_wall", 3, false, 27),
+            // more than a thousand generators with exact distance ties everywhere (work that is split by the size of the input and
+            // the number of threads must not decide ties differently)
+            ("lattice", 3, true, 1331),
+            ("lattice", 3, false, 1331),
             ("uniform", 2, true, 500),
             ("on_boundary", 2, false, 60),
             ("uniform", 1, false, 200),
@@ -188,14 +192,15 @@ pub fn run(out: &mut Out, rng: &mut Rng, thorough: bool) {
                 // central cell is an exact tie; the contracted copy used as build history has spacing 1/8
                 use glam::DVec3;
                 let mut gens = vec![];
-                for i in 0..3 {
-                    for j in 0..3 {
-                        for k in 0..3 {
-                            gens.push(DVec3::splat(0.5) + DVec3::new(i as f64 - 1., j as f64 - 1., k as f64 - 1.) * 0.25);
+                let (m, h) = if n >= 1000 { (11i32, 1. / 16.) } else { (3i32, 0.25) };
+                for i in 0..m {
+                    for j in 0..m {
+                        for k in 0..m {
+                            gens.push(DVec3::splat(0.5) + DVec3::new((i - m / 2) as f64, (j - m / 2) as f64, (k - m / 2) as f64) * h);
                         }
                     }
                 }
-                inp = Input { family: format!("lattice3{}_unit_exact", if periodic { "p" } else { "r" }), dim: 3, periodic, anchor: DVec3::ZERO, width: DVec3::ONE, gens };
+                inp = Input { family: format!("lattice3{}_unit_exact{}", if periodic { "p" } else { "r" }, if m > 3 { "11" } else { "" }), dim: 3, periodic, anchor: DVec3::ZERO, width: DVec3::ONE, gens };
             }
             let mask = if fam == "blob_isolated" && rng.bool() {
                 Some(gen::make_mask_local(rng, inp.gens.len()))
